@@ -208,8 +208,8 @@ open Pyro.Gen.C11 in
     inside it, `except Exception` appends a wrapper and breaks, `else` appends the result; oneway returns
     before the reply is built. -/
 theorem C11_gen_server_shape :
-    batchLoopShape = ["gate:_get_attribute", "try[", "call", "]", "except:Exception[", "hook", "set-traceback",
-                      "append:wrapper", "break", "]", "else[", "append:result", "]"] ∧
+    batchLoopShape = ["gate:_get_attribute", "try[", "call", "]", "except:Exception[", "hook", "format-traceback",
+                      "serialize-or-fallback", "append:wrapper", "break", "]", "else[", "append:result", "]"] ∧
     singleCallGate = "_get_attribute" ∧ onewayReturnsBeforeReply = true ∧ batchedFlagAfterLoop = true := by decide
 
 open Pyro.Gen.C11 in
